@@ -213,8 +213,15 @@ class Run:
                 from iOpt.trial import Point
                 import numpy as np
                 extra["startPoint"] = Point(np.array(params["startPoint"], dtype=np.double), [])
+            dens = recipe.get("density", 10)
+            if recipe.get("density_type") == "np64":
+                import numpy as np
+                dens = np.int64(dens)          # a density that comes out of np.arange / an int array
+            elif recipe.get("density_type") == "np32":
+                import numpy as np
+                dens = np.int32(dens)
             self.sp = SolverParameters(eps=params["eps"], r=params["r"], itersLimit=params["itersLimit"],
-                                       evolventDensity=recipe.get("density", 10), refineSolution=refine, **extra)
+                                       evolventDensity=dens, refineSolution=refine, **extra)
             self.solver = Solver(self.problem, parameters=self.sp)
         self.rec = None
         if record:
